@@ -21,7 +21,7 @@ pub enum TE {
     SliceStatic(Box<TE>),
     String,
     Unit,
-    Array(Box<TE>, u8),
+    Array(Box<TE>, u32),
     Tuple(Vec<TE>),
     Vec(Box<TE>),
     VecDeque(Box<TE>),
